@@ -260,7 +260,11 @@ func (e *Engine) formatOperand(v Value, verb byte, caller *frame) (string, bool)
 		// error / Stringer
 		if verb == 'v' || verb == 's' || verb == 'q' {
 			for _, mname := range []string{"Error", "String"} {
-				if m := e.prog.LookupMethod(v.T, nil, mname); m != nil && m.Signature.Params().Len() == 0 && m.Signature.Results().Len() == 1 {
+				sel := e.prog.MethodSets.MethodSet(v.T).Lookup(nil, mname)
+				if sel == nil {
+					continue
+				}
+				if m := e.prog.MethodValue(sel); m != nil && m.Signature.Params().Len() == 0 && m.Signature.Results().Len() == 1 {
 					if b, ok := m.Signature.Results().At(0).Type().Underlying().(*types.Basic); ok && b.Info()&types.IsString != 0 {
 						var out Value
 						func() {
